@@ -4,8 +4,8 @@ import SccacheModel.Proofs.Shutdown
 
 /-! # C20 — one server per address: cold starts converge, shutdown is graceful, idle exit not before its time
 
-Models: `StartupM` (`Model/Startup.lean`): the OS address table (`bind` on a TCP port fails when bound; the Unix-socket
-path is unlinked first, so `bind` always succeeds), clients (`connect`; on refusal spawn a server and wait for its
+Models: `StartupM` (`Model/Startup.lean`): the OS address table (an exclusive `bind` fails when the address is bound: a TCP port, and
+since fix F-C20-a a Unix-socket path too — lock file, liveness probe, only then unlink + bind; the unrepaired unlink-then-bind is kept as `unixSocket := true`), clients (`connect`; on refusal spawn a server and wait for its
 notification; `AddrInUse` ⇒ reconnect), servers (bind, notify, serve); any number of clients, any interleaving.
 `IdleM` (`Model/Idle.lean`): the inactivity timer with a logical clock.
 `ShutM` (`Model/Shutdown.lean`): the whole life of a running server — serving, drain after a stop request or the idle expiry, exit —
@@ -17,14 +17,14 @@ Partial: schedules of real processes cannot be enumerated; the real runs are che
 namespace C20
 open StartupM
 
-/-- `tcp_singleton`: over a TCP address, in **every** interleaving of any number of simultaneously started clients
+/-- `tcp_singleton` (since fix F-C20-a this is the statement for Unix-socket addresses too: both binds are exclusive): in **every** interleaving of any number of simultaneously started clients
     (each possibly spawning a server), at most one server is ever serving -/
 theorem tcp_singleton (k : Nat) (as : List SAct) (s1 s2 : Nat)
     (h1 : (srun (Net.init false k) as).servers[s1]? = some .serving)
     (h2 : (srun (Net.init false k) as).servers[s2]? = some .serving) : s1 = s2 :=
   StartupM.tcp_singleton k as s1 s2 h1 h2
 
-/-- F-C20-a (negative, kernel-checked, open): with a Unix-socket address two clients starting together end with two
+/-- F-C20-a (fixed; kernel-checked witness of the unrepaired bind): with unlink-then-bind two clients starting together end with two
     servers serving — the second unlinks the first one's socket and rebinds; the first stays alive, unreachable -/
 theorem unix_second_server :
     let n := srun (Net.init true 2) [.connect 0, .connect 1, .bind 0, .bind 1]
